@@ -129,7 +129,15 @@ fn main() {
                 vp_harness::exec::provoke_failures(&mut pr);
             }
         }
+        let fail_nth: i64 = arg(&args, "--fail-alloc").map(|s| s.parse().unwrap()).unwrap_or(-1);
+        if fail_nth > 0 {
+            monitor::alloc::arm_failure(fail_nth);
+        }
         (prop.run)(&mut ctx);
+        if fail_nth > 0 {
+            monitor::alloc::arm_failure(-1);
+            println!("ALLOCFAIL nth={} fired={}", fail_nth, monitor::alloc::failure_fired());
+        }
         let j = rep.to_json(vec![]);
         println!("{}", j.to_string());
         if rep.violation_count > 0 {
